@@ -80,7 +80,9 @@ def insDelta (i : Ins) : Option H :=
   else if x87Same.contains i.op || plainOps.contains i.op then some ⟨0, 0⟩
   else none
 
-def isLocalLabel (i : Ins) : Bool := i.op.endsWith ":" && i.a.isEmpty
+/-- a local label inside a multi-instruction line: an `Ins` whose op ends in `:` (kernel-reducible
+    spelling: `String.endsWith` does not reduce under `decide`) -/
+def isLocalLabel (i : Ins) : Bool := i.op.toList.getLast? == some ':' && i.a.isEmpty
 
 /-- a `cast_table` line: several instructions, possibly with forward jumps to local labels inside the
     line.  Its effect is the sum of the instruction effects provided every instruction that has an
